@@ -7,6 +7,7 @@ package pilosa_test
 // with what the live server held before and after the operation in flight.
 
 import (
+	"context"
 	"fmt"
 	"io"
 	"os"
@@ -261,7 +262,36 @@ func execC09Node(c *simrt.Ctx) {
 			}
 			n2.opened = true
 			got := snapOf(n2.srv)
+			depths := map[string]uint{}
+			for _, ii := range n2.api.Schema(context.Background()) {
+				for _, f := range ii.Fields {
+					if f.Options.Type == pilosa.FieldTypeInt {
+						depths[ii.Name+"/"+f.Name] = f.Options.BitDepth
+					}
+				}
+			}
 			n2.close()
+			// an int field must come back with a bit depth that covers every value bit its
+			// fragments hold, or the stored values read back truncated
+			for _, k := range simrt.SortedKeys(got) {
+				p := strings.Split(k, "/")
+				depth, isInt := depths[p[0]+"/"+p[1]]
+				if !isInt || !strings.HasPrefix(p[2], "bsig_") {
+					continue
+				}
+				top := uint64(0)
+				for bit := range got[k] {
+					if bit[0] > top {
+						top = bit[0]
+					}
+				}
+				if top >= 2 && uint64(depth) < top-2+1 {
+					c.Fail("depth-lost", "node image at fs-op #%d (%s), op %d %s in flight=%v: field %s/%s restarts with bit depth %d but fragment %s holds value bit %d: stored values read back truncated",
+						b.n, b.what, b.op, opdesc, b.inflight, p[0], p[1], depth, k, top-2)
+					return
+				}
+			}
+			c.Probe("node-int-depths-checked")
 			before := snaps[b.op]
 			after := before
 			if b.inflight && b.op+1 < len(snaps) {
